@@ -37,7 +37,8 @@ PROPS = {
                        T("TestVerifC13GroupStress", 25, 200, shrinktime="0s", gomaxprocs=[16, 4, 8, 16])]),
     "C14": dict(tests=[T("TestVerifC14", 2500, 30000),
                        T("TestVerifC14Conc", 150, 2500, shrinktime="0s", gomaxprocs=[16, 4, 8, 16])]),
-    "C15": dict(tests=[T("TestVerifC15", 2500, 30000)]),
+    "C15": dict(tests=[T("TestVerifC15", 2500, 30000),
+                       T("TestVerifC15Conc", 150, 2500, shrinktime="0s", gomaxprocs=[16, 4, 8, 16])]),
     "C18": dict(tests=[T("TestVerifC18", 6000, 100000), T("TestVerifC18Loading", 300, 4000, shrinktime="0s"), T("TestVerifC18Builders", 1500, 20000, pkg="."),
                        # the maphash.Comparable hasher (Go >= 1.24) is exercised with the newer toolchain in the thorough tier
                        dict(T("TestVerifC18", 6000, 50000, th_shards=8), go="go1.26.8", tiers=("thorough",), label="go1.26.8")]),
